@@ -49,6 +49,8 @@ type regexpSimplifyChecker struct {
 	out *strings.Builder
 	// score is a number of applied simplifications
 	score int
+	// literalBraces are the offsets in out of every `{` written as a literal char.
+	literalBraces []int
 }
 
 func (c *regexpSimplifyChecker) VisitExpr(x ast.Expr) {
@@ -98,6 +100,7 @@ func (c *regexpSimplifyChecker) simplify(pass int, pat string) string {
 
 	c.score = 0
 	c.out.Reset()
+	c.literalBraces = c.literalBraces[:0]
 
 	// TODO(quasilyte): suggest char ranges for things like [012345689]?
 	// TODO(quasilyte): evaluate char range to suggest better replacements.
@@ -118,9 +121,22 @@ func (c *regexpSimplifyChecker) simplify(pass int, pat string) string {
 	}
 
 	if c.score > 0 {
-		return c.out.String()
+		return c.protectLiteralBraces(c.out.String())
 	}
 	return ""
+}
+
+// protectLiteralBraces escapes every literal `{` of the simplified pattern s
+// that would start a repetition operator after the text that followed it
+// was rewritten: `a{[1]}` is not `a{1}`, `x{{1}2}` is not `x{2}`.
+func (c *regexpSimplifyChecker) protectLiteralBraces(s string) string {
+	for i := len(c.literalBraces) - 1; i >= 0; i-- {
+		pos := c.literalBraces[i]
+		if startsWithRepeatOp(s[pos:]) {
+			s = s[:pos] + `\` + s[pos:]
+		}
+	}
+	return s
 }
 
 func (c *regexpSimplifyChecker) walk(e syntax.Expr) {
@@ -252,6 +268,12 @@ func (c *regexpSimplifyChecker) walk(e syntax.Expr) {
 		c.walk(e.Args[0])
 		out.WriteString("+")
 
+	case syntax.OpChar:
+		if e.Value == "{" {
+			c.literalBraces = append(c.literalBraces, out.Len())
+		}
+		out.WriteString(e.Value)
+
 	default:
 		out.WriteString(e.Value)
 	}
@@ -281,8 +303,26 @@ func (c *regexpSimplifyChecker) escapeIsLoadBearing(v string) bool {
 	return false
 }
 
+// startsWithRepeatOp reports whether s begins with `{n}`, `{n,}` or `{n,m}`.
+func startsWithRepeatOp(s string) bool {
+	digits := func(s string) string { return strings.TrimLeft(s, "0123456789") }
+	if !strings.HasPrefix(s, "{") {
+		return false
+	}
+	rest := digits(s[1:])
+	if len(rest) == len(s)-1 {
+		return false // No min count
+	}
+	if strings.HasPrefix(rest, ",") {
+		rest = digits(rest[1:])
+	}
+	return strings.HasPrefix(rest, "}")
+}
+
 // walkCharClassArgs walks char class elements.
 func (c *regexpSimplifyChecker) walkCharClassArgs(args []syntax.Expr) {
+	// `{` has no special meaning inside a char class.
+	defer func(n int) { c.literalBraces = c.literalBraces[:n] }(len(c.literalBraces))
 	for i, e := range args {
 		if e.Op == syntax.OpCharRange && i+1 < len(args) && args[i+1].Op == syntax.OpChar && args[i+1].Value == "-" {
 			// Don't expand `a-a` in `[a-a-c]`: the following `-` would form a new range.
